@@ -689,6 +689,12 @@ func (e *Engine) addrPrefix(addr ssa.Value, fr *Frame) []string {
 	case *ssa.Alloc:
 		et := a.Type().(*types.Pointer).Elem()
 		if isStruct(et) {
+			if !a.Heap {
+				if fr != nil {
+					return []string{"L." + fr.id + "." + a.Name()}
+				}
+				return nil
+			}
 			return []string{"H." + typeKey(et)}
 		}
 		if _, ok := et.Underlying().(*types.Array); ok {
@@ -704,13 +710,20 @@ func (e *Engine) addrPrefix(addr ssa.Value, fr *Frame) []string {
 	case *ssa.FieldAddr:
 		pt := a.X.Type().Underlying().(*types.Pointer)
 		f := pt.Elem().Underlying().(*types.Struct).Field(a.Field)
-		switch a.X.(type) {
+		switch ax := a.X.(type) {
 		case *ssa.FieldAddr, *ssa.IndexAddr:
 			var out []string
 			for _, p := range e.addrPrefix(a.X, fr) {
 				out = append(out, p+"."+f.Name())
 			}
 			return out
+		case *ssa.Alloc:
+			if !ax.Heap && isStruct(pt.Elem()) {
+				if fr != nil {
+					return []string{"L." + fr.id + "." + ax.Name() + "." + f.Name()}
+				}
+				return nil
+			}
 		}
 		return []string{"H." + typeKey(pt.Elem()) + "." + f.Name()}
 	case *ssa.IndexAddr:
@@ -744,6 +757,12 @@ func (e *Engine) instrMods(in ssa.Instruction, ms *ModSet, fr *Frame, visiting m
 		et := in.Type().(*types.Pointer).Elem()
 		switch ut := et.Underlying().(type) {
 		case *types.Struct:
+			if !in.Heap {
+				if fr != nil {
+					ms.Vars["L."+fr.id+"."+in.Name()] = true
+				}
+				break
+			}
 			ms.Alloc = true
 			ms.Allocs["H."+typeKey(et)] = true
 		case *types.Array:
